@@ -28,6 +28,8 @@ def validate_graph(
     nx_graph: nx.DiGraph,
     graph_name: str | None,
     strict_types: bool,
+    *,
+    explicit_edges: bool = False,
 ) -> None:
     """Run all build-time validations on a graph.
 
@@ -36,6 +38,7 @@ def validate_graph(
         nx_graph: The NetworkX directed graph
         graph_name: Optional graph name
         strict_types: Whether to validate type compatibility
+        explicit_edges: Whether the data edges were declared by the user
     """
     _validate_graph_name(graph_name)
     _validate_reserved_names(nodes)
@@ -49,7 +52,7 @@ def validate_graph(
     _validate_no_cache_on_non_function_nodes(nodes)
     _validate_wait_for_references(nodes)
     if strict_types:
-        _validate_types(nodes, nx_graph)
+        _validate_types(nodes, nx_graph, explicit_edges=explicit_edges)
 
 
 def _validate_graph_name(graph_name: str | None) -> None:
@@ -230,7 +233,7 @@ def _values_equal(a: Any, b: Any) -> bool:
         return False
 
 
-def _validate_types(nodes: dict[str, HyperNode], nx_graph: nx.DiGraph) -> None:
+def _validate_types(nodes: dict[str, HyperNode], nx_graph: nx.DiGraph, *, explicit_edges: bool = False) -> None:
     """Validate type compatibility between connected nodes.
 
     Checks each edge (source_node -> target_node) for:
@@ -245,29 +248,36 @@ def _validate_types(nodes: dict[str, HyperNode], nx_graph: nx.DiGraph) -> None:
             # ordering edges (emit / wait_for) carry a signal, not a typed value
             continue
 
-        source_node = nodes[source_name]
         target_node = nodes[target_name]
 
         for value_name in value_names:
-            # Get types using universal capability methods
-            output_type = source_node.get_output_type(value_name)
+            # With inferred edges the graph wires a shared name from its first
+            # producer only, but whichever producer ran last supplies the value:
+            # every producer of the name has to satisfy the consumer.
+            producers = [source_name]
+            if not explicit_edges:
+                producers += [n for n, node in nodes.items() if n != source_name and value_name in node.data_outputs]
 
-            # Check for missing annotations
-            if output_type is None:
-                raise GraphConfigError(
-                    f"Missing type annotation in strict_types mode\n\n"
-                    f"  -> Node '{source_name}' output '{value_name}' has no type annotation\n\n"
-                    f"How to fix:\n"
-                    f"  Add type annotation: def {source_name}(...) -> ReturnType"
-                )
+            for producer_name in producers:
+                # Get types using universal capability methods
+                output_type = nodes[producer_name].get_output_type(value_name)
 
-            # A nested graph may hold several consumers of the value: all of them count
-            if hasattr(target_node, "get_input_types"):
-                input_types = target_node.get_input_types(value_name) or [None]
-            else:
-                input_types = [target_node.get_input_type(value_name)]
-            for input_type in input_types:
-                _check_edge_types(source_name, target_name, value_name, output_type, input_type)
+                # Check for missing annotations
+                if output_type is None:
+                    raise GraphConfigError(
+                        f"Missing type annotation in strict_types mode\n\n"
+                        f"  -> Node '{producer_name}' output '{value_name}' has no type annotation\n\n"
+                        f"How to fix:\n"
+                        f"  Add type annotation: def {producer_name}(...) -> ReturnType"
+                    )
+
+                # A nested graph may hold several consumers of the value: all of them count
+                if hasattr(target_node, "get_input_types"):
+                    input_types = target_node.get_input_types(value_name) or [None]
+                else:
+                    input_types = [target_node.get_input_type(value_name)]
+                for input_type in input_types:
+                    _check_edge_types(producer_name, target_name, value_name, output_type, input_type)
 
 
 def _check_edge_types(source_name: str, target_name: str, value_name: str, output_type: Any, input_type: Any) -> None:
